@@ -54,11 +54,11 @@ manifest = {
         "name": "lemolint",
         "path": "/verif/lint",
         "serves_properties": sorted(CLAIMED.keys()),
-        "kind_free_text": "repository-specific static analyser over go/packages, go/ssa (dominators, CFG reachability, value slices), VTA call graph; rule tables per property in lint/internal/rules",
+        "kind_free_text": "repository-specific static analyser over go/packages, go/ssa (dominators, CFG reachability with correlated-nil-test pruning, value slices), VTA call graph; rule tables per property in lint/internal/rules; a source-to-source pre-pass (lint/internal/normalize, go/packages overlay) inlines private helpers and local closures that the reference tree (reference/functions.txt) does not know, so that extract-function refactorings do not change a verdict",
     }],
     "checks": checks,
     "not_applicable": na,
-    "notes": "Static analysis only. Every claimed property is claimed at level 'other' for named structural clauses that are necessary conditions of the behaviour; the behavioural cores that are not decided are listed per property in evidence coverage.not_decided and in DESIGN.md §4. Genuine defects found are either repaired by 'fix:' commits in /repo or listed in /verif/known_findings.json.",
+    "notes": "Static analysis only (nothing from /repo is built or run; the thorough tier re-analyses scratch copies with mutants, seeded changes and behaviour-preserving refactors applied). Every claimed property is claimed at level 'other' for named structural clauses that are necessary conditions of the behaviour; the behavioural cores that are not decided are listed per property in evidence coverage.not_decided and in DESIGN.md §4. Genuine defects found are either repaired by 'fix:' commits in /repo or listed in /verif/known_findings.json.",
 }
 json.dump(manifest, open(os.path.join(V, 'MANIFEST.json'), 'w'), indent=1)
 print("claimed:", sorted(CLAIMED.keys()))
